@@ -1,5 +1,5 @@
-import Spk.Machine3 -- (spike: built as module Spk.Machine3 = spikes/Machine.lean of a scratch lake project)
-namespace BM3
+import Spk.Machine4 -- (spike: module Spk.Machine4 = spikes/Machine.lean of a scratch lake project)
+namespace BM4
 
 theorem wcur_cons (m : M) (w ws) (h : m.write = w :: ws) : wcur m = w.cursor := by simp [wcur, h]
 theorem rcur_cons (m : M) (r rs) (h : m.read = r :: rs) : rcur m = r.cursor := by simp [rcur, h]
@@ -38,7 +38,9 @@ theorem copy_caps {n m m'} (h : copy n m = .ok m') : SameCaps m m' := by
   unfold copy at h; split at h
   · cases h; exact ⟨rfl, rfl⟩
   · split at h
-    · cases h; exact ⟨rfl, rfl⟩
+    · split at h
+      · cases h; exact ⟨rfl, rfl⟩
+      · cases h
     · cases h
 theorem newWrite_caps {n m m'} (h : newWrite n m = .ok m') : SameCaps m m' := by
   unfold newWrite at h; split at h
@@ -178,7 +180,8 @@ structure Cap {a b : Ty} (m : M) (t : Term a b) : Prop where
   cells : m.next + extraCells t ≤ m.cap
   frames : m.write.length + m.read.length + extraFrames t ≤ m.fcap
 
-theorem spec_iden {a : Ty} (m : M) (v : Val) (pre : Pre m a a v) : Spec (Term.iden (a := a)) m v := by
+theorem spec_iden {a : Ty} (m : M) (v : Val) (pre : Pre m a a v) (hcc : m.next ≤ m.cap) :
+    Spec (Term.iden (a := a)) m v := by
   unfold Spec
   simp only [eval, run, copy]
   by_cases h0 : a.bw = 0
@@ -196,8 +199,12 @@ theorem spec_iden {a : Ty} (m : M) (v : Val) (pre : Pre m a a v) : Spec (Term.id
         have hwc := wcur_cons m w ws hwr
         have hd : ∀ i j, i < a.bw → j < a.bw → r.cursor + i ≠ w.cursor + j := by
           intro i j hi hj; have := pre.disj i j hi hj; rwa [hrc, hwc] at this
+        have hin : r.cursor + a.bw ≤ m.cap ∧ w.cursor + a.bw ≤ m.cap := by
+          have h1 := pre.rlt; have h2 := pre.wlt
+          rw [hrc] at h1; rw [hwc] at h2
+          exact ⟨by omega, by omega⟩
         refine ⟨{ m with cells := copyCells m.cells r.cursor w.cursor a.bw,
-                         write := { w with cursor := w.cursor + a.bw } :: ws }, by simp [h0, hrd], ?_⟩
+                         write := { w with cursor := w.cursor + a.bw } :: ws }, by simp [h0, hrd, hin], ?_⟩
         refine ⟨rfl, rfl, by simp [hwr, advW], ?_, ?_⟩
         · have : slice (copyCells m.cells r.cursor w.cursor a.bw) (wcur m) a.bw
               = slice m.cells (rcur m) a.bw := by
@@ -752,7 +759,11 @@ theorem spec_case {a b c d : Ty} (s : Term (.prod a c) d) (t : Term (.prod b c) 
   have hrc := rcur_cons m r rs hrd
   rw [hsrc] at hbs
   have hsp := slice_split hbs (by rw [hu.length]; rfl)
-  have hpk : peek m = .ok (m.cells (rcur m)) := by simp [peek, hrd, hrc]
+  have hpk : peek m = .ok (m.cells (rcur m)) := by
+    have h1 := pre.rlt
+    rw [hsrc, hrc] at h1
+    have : r.cursor < m.cap := by omega
+    simp [peek, hrd, hrc, this]
   unfold Spec
   simp only [run]
   rw [hpk, ok_bind]
@@ -913,7 +924,10 @@ theorem spec_jet {a b : Ty} (jf : List Bool → Option (List Bool)) (f : Val →
     (hcap : Cap m (Term.jet (a := a) (b := b) jf f)) : Spec (Term.jet (a := a) (b := b) jf f) m v := by
   unfold Spec
   simp only [eval, run]
-  have hnc : ¬ (a.bw ≠ 0 ∧ m.read = []) := fun h => pre.hr h.1 h.2
+  have hnc : ¬ ((a.bw ≠ 0 ∧ m.read = []) ∨ m.cap < rcur m + a.bw) := by
+    rintro (h | h)
+    · exact pre.hr h.1 h.2
+    · have := pre.rlt; have := hcap.cells; omega
   rw [if_neg hnc]
   have := hj v _ pre.enc
   cases hf : f v with
@@ -1004,7 +1018,7 @@ theorem run_disconnect {a b c d : Ty} (w : Ty) (cw : Val) (s : Term (.prod w a) 
 theorem run_spec : ∀ {a b : Ty} (t : Term a b) (m : M) (v : Val), WT t → Pre m a b v → Cap m t → Spec t m v := by
   intro a b t
   induction t with
-  | iden => exact fun m v _ pre _ => spec_iden m v pre
+  | iden => exact fun m v _ pre hc => spec_iden m v pre (by have := hc.cells; omega)
   | unit =>
     intro m v _ pre _
     exact ⟨m, rfl, rfl, rfl, by simp [Ty.bw], by simpa [Ty.bw, slice] using Enc.unit, fun _ _ _ => rfl⟩
@@ -1065,17 +1079,17 @@ theorem run_spec : ∀ {a b : Ty} (t : Term a b) (m : M) (v : Val), WT t → Pre
       · intro m v pre hc
         apply spec_pair _ _ _ _ m v pre hc
         · exact fun m v pre hc => spec_word cw hwt.1 m v pre hc
-        · exact fun m v pre _ => spec_iden m v pre
+        · exact fun m v pre hc => spec_iden m v pre (by have := hc.cells; omega)
       · intro m v pre hc
         apply spec_comp _ _ _ _ m v pre hc
         · exact fun m v => ihs m v hwt.2.1
         · intro m v pre hc
           apply spec_pair _ _ _ _ m v pre hc
-          · exact fun m v pre hc => spec_take _ (fun m v pre _ => spec_iden m v pre) m v pre hc
+          · exact fun m v pre hc => spec_take _ (fun m v pre hc => spec_iden m v pre (by have := hc.cells; omega)) m v pre hc
           · exact fun m v pre hc => spec_drop _ (fun m v => iht m v hwt.2.2) m v pre hc
     unfold Spec at key ⊢
     rw [eval_disconnect, run_disconnect]
     exact key
 
 #print axioms run_spec
-end BM3
+end BM4
